@@ -584,74 +584,174 @@ func c20CheckReceiver(p *Prog, fn *ssa.Function, site ssa.CallInstruction, obser
 // such Return exists. Paths that come back to an already visited state are not followed (what may happen after an
 // error before the function returns is the business of the `error-stops` obligation).
 func c20ErrReturned(p *Prog, s ssa.Instruction, errV ssa.Value) (bool, string) {
-	type bind map[*ssa.Phi]ssa.Value
-	resolve := func(b bind, v ssa.Value) ssa.Value {
-		for {
-			ct, ok := v.(*ssa.ChangeType)
-			if !ok {
-				break
+	w := &c20RetWalk{P: p, NonNil: errV}
+	returns := 0
+	why := w.Run(s.Block(), nil, instrIndex(s)+1, func(ret *ssa.Return, got ssa.Value) string {
+		returns++
+		if got != errV {
+			g := "nothing"
+			if got != nil {
+				g = got.String()
 			}
-			v = ct.X
+			return "a path after the failing call returns " + g + " @" + p.Pos(ret.Pos())
 		}
-		if ph, ok := v.(*ssa.Phi); ok {
-			if r, bound := b[ph]; bound {
-				return r
-			}
-		}
-		return v
+		return ""
+	})
+	if why != "" {
+		return false, why
 	}
-	const (
-		unknown = iota
-		isNil
-		nonNil
-	)
-	nilness := func(b bind, v ssa.Value) int {
-		r := resolve(b, v)
-		if r == errV {
-			return nonNil
-		}
-		switch x := r.(type) {
-		case *ssa.Const:
-			if x.Value == nil {
-				switch x.Type().Underlying().(type) {
-				case *types.Pointer, *types.Interface, *types.Slice, *types.Map, *types.Signature:
-					return isNil
-				}
-			}
-		case *ssa.MakeInterface, *ssa.Alloc:
-			return nonNil
-		}
-		return unknown
+	if returns == 0 {
+		return false, "no return is reachable after the failing call"
 	}
-	var evalCond func(b bind, c ssa.Value) (bool, bool)
-	evalCond = func(b bind, c ssa.Value) (bool, bool) {
-		r := resolve(b, c)
-		switch x := r.(type) {
-		case *ssa.Const:
-			if IsConstBool(x, true) {
-				return true, true
-			}
-			if IsConstBool(x, false) {
-				return false, true
+	return true, ""
+}
+
+// c20RetWalk walks every path from a program point to the Returns it can reach. Phis are resolved along the path
+// (a phi is bound to the operand of the edge the path came in on); a branch whose condition is known along the
+// path is followed on the known side only: boolean constants (flags), nil tests of values of known nil-ness
+// (NonNil is assumed non-nil; nil constants; fresh allocations / interface wrappings), and - when Ready is set -
+// tests of the index delivered by that select against an integer constant, under the assumption that its case 0
+// was ready. Every Return reached is handed to the callback together with its first result resolved along the
+// path (nil when it has none); a non-empty answer stops the walk and is the verdict.
+// A path that comes back to an already visited (block, bindings) state is not followed further.
+type c20RetWalk struct {
+	P      *Prog
+	NonNil ssa.Value   // assumed non-nil (may be nil: no assumption)
+	Ready  *ssa.Select // assumed to have delivered index 0 (may be nil)
+	// OnInstr (optional) sees every instruction on the paths walked; a non-empty answer stops the walk and is the verdict.
+	OnInstr func(ssa.Instruction) string
+}
+
+// c20Bind: what is known along a path - a phi is bound to the operand it received; a local variable that lives in
+// memory only because of a defer/closure-free technicality (c20PrivateCell: an Alloc that is only stored to and
+// loaded from directly, e.g. the result slot of a function with defers) is bound to the value last stored; a load
+// of such a cell is bound to the cell's content at the time of the load.
+type c20Bind map[ssa.Value]ssa.Value
+
+func (b c20Bind) with(k, v ssa.Value) c20Bind {
+	nb := make(c20Bind, len(b)+1)
+	for k0, v0 := range b {
+		nb[k0] = v0
+	}
+	nb[k] = v
+	return nb
+}
+
+// c20PrivateCell: the allocation's address is used only as the direct address of stores and loads.
+func c20PrivateCell(a *ssa.Alloc) bool {
+	if a.Referrers() == nil {
+		return false
+	}
+	for _, ref := range *a.Referrers() {
+		switch x := ref.(type) {
+		case *ssa.Store:
+			if x.Addr != ssa.Value(a) || x.Val == ssa.Value(a) {
+				return false
 			}
 		case *ssa.UnOp:
-			if x.Op == token.NOT {
-				v, ok := evalCond(b, x.X)
-				return !v, ok
+			if x.Op != token.MUL {
+				return false
 			}
-		case *ssa.BinOp:
-			if x.Op != token.EQL && x.Op != token.NEQ {
-				return false, false
-			}
-			l, r := nilness(b, x.X), nilness(b, x.Y)
-			if l == unknown || r == unknown || (l == nonNil && r == nonNil) {
-				return false, false
-			}
-			eq := l == isNil && r == isNil
-			return eq == (x.Op == token.EQL), true
+		case *ssa.DebugRef:
+		default:
+			return false
 		}
-		return false, false
 	}
+	return true
+}
+
+func (w *c20RetWalk) resolve(b c20Bind, v ssa.Value) ssa.Value {
+	for {
+		ct, ok := v.(*ssa.ChangeType)
+		if !ok {
+			break
+		}
+		v = ct.X
+	}
+	switch v.(type) {
+	case *ssa.Phi, *ssa.UnOp:
+		if r, bound := b[v]; bound {
+			return r
+		}
+	}
+	return v
+}
+
+const (
+	c20NilUnknown = iota
+	c20IsNil
+	c20NonNil
+)
+
+func (w *c20RetWalk) nilness(b c20Bind, v ssa.Value) int {
+	r := w.resolve(b, v)
+	if w.NonNil != nil && r == w.NonNil {
+		return c20NonNil
+	}
+	switch x := r.(type) {
+	case *ssa.Const:
+		if x.Value == nil {
+			switch x.Type().Underlying().(type) {
+			case *types.Pointer, *types.Interface, *types.Slice, *types.Map, *types.Signature:
+				return c20IsNil
+			}
+		}
+	case *ssa.MakeInterface, *ssa.Alloc:
+		return c20NonNil
+	}
+	return c20NilUnknown
+}
+
+// selIndex: v is the index result of the select assumed ready.
+func (w *c20RetWalk) selIndex(b c20Bind, v ssa.Value) bool {
+	if w.Ready == nil {
+		return false
+	}
+	e, ok := w.resolve(b, v).(*ssa.Extract)
+	return ok && e.Index == 0 && e.Tuple == ssa.Value(w.Ready)
+}
+
+func (w *c20RetWalk) evalCond(b c20Bind, c ssa.Value) (bool, bool) {
+	r := w.resolve(b, c)
+	switch x := r.(type) {
+	case *ssa.Const:
+		if IsConstBool(x, true) {
+			return true, true
+		}
+		if IsConstBool(x, false) {
+			return false, true
+		}
+	case *ssa.UnOp:
+		if x.Op == token.NOT {
+			v, ok := w.evalCond(b, x.X)
+			return !v, ok
+		}
+	case *ssa.BinOp:
+		if x.Op != token.EQL && x.Op != token.NEQ {
+			return false, false
+		}
+		for _, pr := range [][2]ssa.Value{{x.X, x.Y}, {x.Y, x.X}} {
+			if w.selIndex(b, pr[0]) {
+				if k, isC := w.resolve(b, pr[1]).(*ssa.Const); isC && k.Value != nil {
+					eq := k.Value.ExactString() == "0"
+					return eq == (x.Op == token.EQL), true
+				}
+				return false, false
+			}
+		}
+		l, r := w.nilness(b, x.X), w.nilness(b, x.Y)
+		if l == c20NilUnknown || r == c20NilUnknown || (l == c20NonNil && r == c20NonNil) {
+			return false, false
+		}
+		eq := l == c20IsNil && r == c20IsNil
+		return eq == (x.Op == token.EQL), true
+	}
+	return false, false
+}
+
+// Run starts at instruction idx of blk; from != nil means the walk enters blk over the edge from->blk (its phis are
+// bound accordingly, idx is ignored).
+func (w *c20RetWalk) Run(blk, from *ssa.BasicBlock, idx int, onReturn func(ret *ssa.Return, got ssa.Value) string) string {
 	name := func(v ssa.Value) string {
 		if c, ok := v.(*ssa.Const); ok {
 			return c.String()
@@ -659,14 +759,14 @@ func c20ErrReturned(p *Prog, s ssa.Instruction, errV ssa.Value) (bool, string) {
 		return v.Name()
 	}
 	seen := map[string]bool{}
-	states, returns, why := 0, 0, ""
-	var walk func(blk, from *ssa.BasicBlock, idx int, b bind)
-	walk = func(blk, from *ssa.BasicBlock, idx int, b bind) {
+	states, why := 0, ""
+	var walk func(blk, from *ssa.BasicBlock, idx int, b c20Bind)
+	walk = func(blk, from *ssa.BasicBlock, idx int, b c20Bind) {
 		if why != "" {
 			return
 		}
 		if from != nil {
-			nb := bind{}
+			nb := c20Bind{}
 			for k, v := range b {
 				nb[k] = v
 			}
@@ -677,7 +777,7 @@ func c20ErrReturned(p *Prog, s ssa.Instruction, errV ssa.Value) (bool, string) {
 				}
 				for i, pr := range blk.Preds {
 					if pr == from {
-						nb[ph] = resolve(b, ph.Edges[i])
+						nb[ph] = w.resolve(b, ph.Edges[i])
 						break
 					}
 				}
@@ -694,24 +794,39 @@ func c20ErrReturned(p *Prog, s ssa.Instruction, errV ssa.Value) (bool, string) {
 			}
 			seen[key] = true
 			if states++; states > 50000 {
-				why = "too many paths after the failing call"
+				why = "too many paths to follow"
 				return
 			}
 		}
 		for i := idx; i < len(blk.Instrs); i++ {
+			if w.OnInstr != nil {
+				if msg := w.OnInstr(blk.Instrs[i]); msg != "" {
+					why = msg
+					return
+				}
+			}
 			switch x := blk.Instrs[i].(type) {
-			case *ssa.Return:
-				returns++
-				if len(x.Results) == 0 || resolve(b, x.Results[0]) != errV {
-					got := "nothing"
-					if len(x.Results) > 0 {
-						got = resolve(b, x.Results[0]).String()
+			case *ssa.Store:
+				if a, isAlloc := x.Addr.(*ssa.Alloc); isAlloc && c20PrivateCell(a) {
+					b = b.with(a, w.resolve(b, x.Val))
+				}
+			case *ssa.UnOp:
+				if a, isAlloc := x.X.(*ssa.Alloc); isAlloc && x.Op == token.MUL && c20PrivateCell(a) {
+					if cur, bound := b[a]; bound {
+						b = b.with(x, cur)
 					}
-					why = "a path after the failing call returns " + got + " @" + p.Pos(x.Pos())
+				}
+			case *ssa.Return:
+				var got ssa.Value
+				if len(x.Results) > 0 {
+					got = w.resolve(b, x.Results[0])
+				}
+				if msg := onReturn(x, got); msg != "" {
+					why = msg
 				}
 				return
 			case *ssa.If:
-				if val, known := evalCond(b, x.Cond); known {
+				if val, known := w.evalCond(b, x.Cond); known {
 					if val {
 						walk(blk.Succs[0], blk, 0, b)
 					} else {
@@ -725,12 +840,96 @@ func c20ErrReturned(p *Prog, s ssa.Instruction, errV ssa.Value) (bool, string) {
 			walk(s, blk, 0, b)
 		}
 	}
-	walk(s.Block(), nil, instrIndex(s)+1, bind{})
+	if from != nil {
+		idx = 0
+	}
+	walk(blk, from, idx, c20Bind{})
+	return why
+}
+
+// c20IsNilConst: v is the nil constant of a nilable type.
+func c20IsNilConst(v ssa.Value) bool {
+	c, ok := v.(*ssa.Const)
+	if !ok || c.Value != nil {
+		return false
+	}
+	switch c.Type().Underlying().(type) {
+	case *types.Pointer, *types.Interface, *types.Slice, *types.Map, *types.Signature:
+		return true
+	}
+	return false
+}
+
+// c20CancelReturns: what Execute does when the non-blocking select `sel` on ctx.Done() finds the channel closed.
+// On every path that continues after the select under the assumption that its receive case was ready (tests of the
+// select's index are decided accordingly, result variables of an inlined helper - `canceled, cause` - are resolved
+// along the path), the path ends in a Return whose value is the result of Err() invoked on the very context whose
+// Done() channel the select reads, the call being made after the select; at least one such Return exists; and none
+// of the protocol events (isEvent) is reachable on the way.
+func c20CancelReturns(p *Prog, tm *Termer, sel *ssa.Select, isEvent func(ssa.Instruction) bool) (bool, string) {
+	if len(sel.States) != 1 {
+		return false, "the cancellation test has more than one case"
+	}
+	strip := func(v ssa.Value) ssa.Value {
+		for {
+			switch x := v.(type) {
+			case *ssa.ChangeType:
+				v = x.X
+				continue
+			case *ssa.Phi:
+				var only ssa.Value
+				same := true
+				for _, e := range x.Edges {
+					if only == nil {
+						only = e
+					} else if only != e {
+						same = false
+					}
+				}
+				if same && only != nil {
+					v = only
+					continue
+				}
+			}
+			return v
+		}
+	}
+	done, ok := strip(sel.States[0].Chan).(*ssa.Call)
+	if !ok || !done.Call.IsInvoke() || done.Call.Method.Name() != "Done" {
+		return false, "the channel tested is not the result of a Done() call"
+	}
+	ctxV := strip(done.Call.Value)
+	ctxT := tm.Of(done.Call.Value).String()
+	w := &c20RetWalk{P: p, Ready: sel, OnInstr: func(in ssa.Instruction) string {
+		if isEvent(in) {
+			return "after the context was found cancelled the run goes on: " + in.String() + " @" + p.Pos(in.Pos())
+		}
+		return ""
+	}}
+	returns := 0
+	why := w.Run(sel.Block(), nil, instrIndex(sel)+1, func(ret *ssa.Return, got ssa.Value) string {
+		returns++
+		at := " @" + p.Pos(ret.Pos())
+		if got == nil {
+			return "after a cancelled context a path returns nothing" + at
+		}
+		call, isCall := strip(got).(*ssa.Call)
+		if !isCall || !call.Call.IsInvoke() || call.Call.Method.Name() != "Err" {
+			return "after a cancelled context a path returns " + tm.Of(got).String() + at
+		}
+		if strip(call.Call.Value) != ctxV && tm.Of(call.Call.Value).String() != ctxT {
+			return "the error returned after cancellation is Err() of " + tm.Of(call.Call.Value).String() + ", the channel tested is Done() of " + ctxT + at
+		}
+		if !c20After(sel, call) {
+			return "the error returned after cancellation was read before the context was tested" + at
+		}
+		return ""
+	})
 	if why != "" {
 		return false, why
 	}
 	if returns == 0 {
-		return false, "no return is reachable after the failing call"
+		return false, "no return is reachable after the context was found cancelled"
 	}
 	return true, ""
 }
